@@ -13,7 +13,7 @@ for l in open(HERE + "/seeded/RESULTS.jsonl"):
     if "suite_with_patch" in r:
         suite[r["seed"]] = r["suite_with_patch"]["summary"].split(" in ")[0]
 rows = []
-for d in sorted(glob.glob(HERE + "/seeded/[CFGHIJKL]*_*")):
+for d in sorted(glob.glob(HERE + "/seeded/[CFGHIJKLM]*_*")):
     sid = os.path.basename(d)
     m = json.load(open(d + "/meta.json"))
     p = m["property"]
